@@ -624,3 +624,47 @@ func setNames(a map[string]bool) string {
 	sort.Strings(ks)
 	return strings.Join(ks, ", ")
 }
+
+// isRangeIndex: the index of a loop that visits every element once from the first on — the
+// `range` form go/ssa builds (k+1 of a counter that starts at -1) or `for i := 0; …; i++`.
+func isRangeIndex(v ssa.Value) bool {
+	initOf := func(phi *ssa.Phi) (int64, bool) {
+		loop := naturalLoop(phi.Block())
+		if len(loop) == 0 {
+			return 0, false
+		}
+		var init int64
+		found := false
+		for i, e := range phi.Edges {
+			if i >= len(phi.Block().Preds) {
+				return 0, false
+			}
+			if loop[phi.Block().Preds[i]] {
+				// carried value: phi + 1
+				bo, ok := e.(*ssa.BinOp)
+				if !ok || bo.Op != token.ADD || bo.X != ssa.Value(phi) || !isIntConst(bo.Y, 1) {
+					return 0, false
+				}
+				continue
+			}
+			k, ok := e.(*ssa.Const)
+			if !ok || k.Value == nil {
+				return 0, false
+			}
+			init, _ = constant.Int64Val(k.Value)
+			found = true
+		}
+		return init, found
+	}
+	if phi, ok := v.(*ssa.Phi); ok {
+		init, ok := initOf(phi)
+		return ok && init == 0
+	}
+	if bo, ok := v.(*ssa.BinOp); ok && bo.Op == token.ADD && isIntConst(bo.Y, 1) {
+		if phi, ok := bo.X.(*ssa.Phi); ok {
+			init, ok := initOf(phi)
+			return ok && init == -1
+		}
+	}
+	return false
+}
